@@ -1,7 +1,13 @@
 #[cfg(feature = "p_c06")]
 mod c06;
+#[cfg(feature = "p_c07")]
+mod c07;
 #[cfg(feature = "p_c13")]
 mod c13;
+#[cfg(feature = "p_c14")]
+mod c14;
+#[cfg(feature = "p_c17")]
+mod c17;
 #[cfg(feature = "p_cells")]
 mod cells;
 #[cfg(feature = "p_rows")]
@@ -10,5 +16,3 @@ mod rows;
 mod pool;
 #[cfg(feature = "p_propset")]
 mod propset;
-#[cfg(feature = "p_c14")]
-mod c14;
